@@ -217,31 +217,43 @@ def coq_build(timeout=3000):
 
 
 def check_props_file(prop_id, timeout=600):
-    """Re-compile props/<id>.v, return (ok, theorems, assumptions, log).
+    """Re-compile props/<id>.v and props/<id>_*.v, return (ok, theorems, assumptions, log).
 
-    The file contains only `Theorem ... Proof. exact lemma. Qed.` and
-    `Print Assumptions`; its compile output lists the axioms per theorem."""
-    path = os.path.join(COQ, "theories", "props", prop_id + ".v")
+    These files contain only `Theorem ... Proof. exact lemma. Qed.` and
+    `Print Assumptions`; their compile output lists the axioms per theorem."""
+    pdir = os.path.join(COQ, "theories", "props")
+    paths = [os.path.join(pdir, prop_id + ".v")] + sorted(
+        os.path.join(pdir, n) for n in os.listdir(pdir) if n.startswith(prop_id + "_") and n.endswith(".v"))
     os.makedirs(os.path.join(BUILD, "props"), exist_ok=True)
-    if not os.path.exists(path):
-        return False, [], {}, "missing " + path
-    text = strip_comments(open(path).read())
-    theorems = re.findall(r"\bTheorem\s+([A-Za-z0-9_']+)", text)
-    p = subprocess.run(
-        ["timeout", str(timeout), "coqc", "-R", os.path.join(COQ, "theories"), "PyStoG", "-w", "-all",
-         "-o", os.path.join(BUILD, "props", prop_id + ".vo"), path],
-        capture_output=True, text=True, cwd=COQ,
-    )
-    log = p.stdout + p.stderr
-    if p.returncode != 0:
-        return False, theorems, {}, log[-3000:]
-    axioms = set()
-    for line in p.stdout.splitlines():
-        m = re.match(r"^([A-Za-z_][A-Za-z0-9_.']*)\s*:", line)
-        if m and "." in m.group(1):
-            axioms.add(m.group(1))
+    if not os.path.exists(paths[0]):
+        return False, [], {}, "missing " + paths[0]
+    theorems, axioms, logs, ok = [], set(), [], True
+
+    def one(path):
+        return subprocess.run(
+            ["timeout", str(timeout), "coqc", "-R", os.path.join(COQ, "theories"), "PyStoG", "-w", "-all",
+             "-o", os.path.join(BUILD, "props", os.path.basename(path) + "o"), path],
+            capture_output=True, text=True, cwd=COQ)
+
+    with ThreadPoolExecutor(max_workers=len(paths)) as ex:
+        results = list(ex.map(one, paths))
+    for path, p in zip(paths, results):
+        text = strip_comments(open(path).read())
+        # nothing but statements closed by `exact`
+        if re.search(r"\bProof\.(?!\s*exact\b)", text):
+            ok = False
+            logs.append("%s: a proof other than `exact` in a statement-only file" % os.path.basename(path))
+        theorems += re.findall(r"\bTheorem\s+([A-Za-z0-9_']+)", text)
+        log = p.stdout + p.stderr
+        if p.returncode != 0:
+            return False, theorems, {}, log[-3000:]
+        logs.append(log[-600:])
+        for line in p.stdout.splitlines():
+            m = re.match(r"^([A-Za-z_][A-Za-z0-9_.']*)\s*:", line)
+            if m and "." in m.group(1):
+                axioms.add(m.group(1))
     bad = sorted(a for a in axioms if a not in ALLOWED_AXIOMS and not PRIMITIVE_RE.match(a))
-    return (not bad), theorems, {"axioms": sorted(axioms), "not_allowed": bad}, log[-2000:]
+    return (ok and not bad), theorems, {"axioms": sorted(axioms), "not_allowed": bad}, "\n".join(logs)[-2000:]
 
 
 # ---------------------------------------------------------------- evidence / verdict
